@@ -160,7 +160,8 @@ impl Diagnostics {
     pub fn into_updated(mut self, ast: &Ast, files: &[SliceFile], options: &SliceOptions) -> Vec<Diagnostic> {
         // Helper function that checks whether a lint should be allowed according to the provided identifiers.
         fn is_lint_allowed_by<'b>(mut identifiers: impl Iterator<Item = &'b String>, lint: &Lint) -> bool {
-            identifiers.any(|identifier| identifier == "All" || identifier == lint.code())
+            // Lint names passed on the command line are case-insensitive (attribute arguments are validated separately).
+            identifiers.any(|id| id.eq_ignore_ascii_case("All") || id.eq_ignore_ascii_case(lint.code()))
         }
 
         // Helper function that checks whether a lint is allowed by attributes on the provided entity.
